@@ -17,7 +17,7 @@ from vlib import log
 from genlib import *
 
 LEAN_MODULES = ["MpirProofs.Props.C14"]
-THEOREMS = ["Mpir.Params.all_shipped_params_valid", "Mpir.Params.shipped_params_nonempty"]
+THEOREMS = ["Mpir.Params.all_shipped_params_valid", "Mpir.Params.shipped_params_nonempty", "Mpir.Params.shipped_dispatch_respects_minima"]
 def replay_redirect(ctx):
     """`bin/check C14 --replay F` for a replay written by the kernel or rebuild stage: the file names the harness it needs
     (a CPU directory's kernels / a library rebuilt with another table or option); build it and make it the harness under test."""
@@ -56,9 +56,15 @@ ASSUMPTIONS = ["the assembly mpn_rsh_divrem_hensel_qr_1_2 (bobcat, core2, k8, ne
                "only kernels whose entry point has a harness op with the same prototype are executed; the others are listed under coverage.kernels.no_model_op",
                "a kernel is exercised standalone (called from the harness), not as a callee inside a library built for that CPU; "
                "fat-binary dispatch on other CPUs is not executed"]
-RULE = ("kernel stage: every generator of tools/props/c*.py filtered to ops that reach a redirected kernel + kernel-shaped lines (all n 1..140, n mod 8 sweeps around unroll "
-        "boundaries, carry chains, all shift counts, overlap offsets, mul_basecase all (un,vn) <= 24); quick = directory '.' (pinned build) + a VERIF_SEED-rotated tenth of the "
-        "CPU directories, thorough = all directories; distinct = distinct (directory, op line)")
+RULE = ("kernel stage: every mpn/x86_64/**/*.as{,m} is assembled with the repo's own rule; per CPU directory one harness in which each mpn_<fn> the directory ships is its kernel; "
+        "lines = every generator of tools/props/c*.py filtered to the ops that reach a redirected kernel (ELF relocations) + kernel-shaped lines (all n 1..140, carry chains, all shift counts, "
+        "overlap offsets, mul_basecase all (un,vn) <= 24, k_* optional kernels n 1..80 with aliasing modes, exact/inexact Hensel and B-1 divisions, real Karatsuba steps); kernels that use SSE/AVX "
+        "registers are re-run with every allocation at 8 mod 16 / mixed; quick = directory '.' + a VERIF_SEED-rotated tenth of the directories + further directories while the stage is younger than 45 s, "
+        "thorough = all directories, 3x the lines, both alignment modes.  main correspondence (pinned build): k_* ops that have a C routine or fallback macro + c14_* entry points at +-2 of every threshold "
+        "of the pinned table, at 2x/3x (recursion) and unbalanced shapes at 2*threshold.  thorough only: the library is rebuilt once per shipped gmp-mparam.h with -DWANT_ASSERT=1 and once per "
+        "--enable-alloca=malloc-reentrant / --enable-alloca=debug --enable-assert / --enable-fat, and the c14_* crossover lines of THAT table + the value-level lines of the other properties + corpus/C14 run on it.  "
+        "every tier: the driver evaluates each clause of Valid on every regenerated table; a violated clause triggers the rebuild of that table with WANT_ASSERT and the same lines (failing-input search).  "
+        "distinct = distinct op lines of the main correspondence")
 
 # ------------------------------------------------------------------------------------------------ generators
 def harness_op_names():
@@ -119,7 +125,7 @@ def kernel_lines(rng, tier, have):
         out += emit("mpn_mul_basecase %s %s", vec([M] * n), vec([M] * n))
     return out
 
-def kext_lines(rng, tier, have):
+def kext_lines(rng, tier, have, sqr_max=16):
     """kernel-shaped inputs for the optional / internal kernels of harness/ops_c14.c (`k_*`)"""
     out = []
     def emit(fmt, *a):
@@ -151,7 +157,7 @@ def kext_lines(rng, tier, have):
                     emit("k_mod_1_%d %s %x", k, vec(u), d1)
             emit("k_lshiftc %x %s %x", rng.randrange(2), vec(u), rng.randrange(1, 64))
             for op in ("k_not", "k_double", "k_half", "k_popcount", "k_sqr_basecase"):
-                if op != "k_sqr_basecase" or n <= 16: emit("%s %s", op, vec(u))
+                if op != "k_sqr_basecase" or n <= sqr_max: emit("%s %s", op, vec(u))
             emit("k_hamdist %s %s", vec(u), vec(v)); emit("k_store %x %x", n, rand_limb(rng))
             for op in ("k_addadd_n", "k_addsub_n", "k_subadd_n"): emit("%s %x %s %s %s", op, rng.choice([0, 0, 1, 2, 3]), vec(u), vec(v), vec(w))
             for op in ("k_sumdiff_n", "k_nsumdiff_n"): emit("%s %x %s %s", op, rng.choice([0, 0, 0, 1, 2, 3, 4, 5, 6]), vec(u), vec(v))
@@ -308,7 +314,7 @@ def gen_ops(rng, tier, ctx=None):
         for (op, _), a in zip(probe.items(), ans):
             if "!nokernel" in a or a.startswith("?"): have.discard(op)
     if ctx is not None: ctx.c14_deferred = []
-    for ln in kext_lines(rng, tier, have):
+    for ln in kext_lines(rng, tier, have, sqr_max=min(48, sel_vector(ctx).get("SQR_KARATSUBA_THRESHOLD", 16)) if ctx is not None else 16):
         # ops with a listed known finding run in `extra` (one report per disagreement) so that they cannot mask anything else here
         if ln.split(" ", 1)[0] in DEFERRED_OPS and ctx is not None: ctx.c14_deferred.append(ln)
         else: yield ln
@@ -324,7 +330,7 @@ def pool_lines(ctx, tier, wanted, cov):
     have = harness_op_names()
     mine = kernel_lines(random.Random("C14-kern-%d" % ctx.seed), tier, have & wanted)
     srcs["c14_asm.kernel_lines"] = len(mine); lines += mine
-    mine = kext_lines(random.Random("C14-kext-%d" % ctx.seed), tier, have & wanted)
+    mine = kext_lines(random.Random("C14-kext-%d" % ctx.seed), tier, have & wanted, sqr_max=48)      # filtered per directory to its own SQR_KARATSUBA_THRESHOLD
     srcs["c14_asm.kext_lines"] = len(mine); lines += mine
     for f in sorted(glob.glob(os.path.join(pdir, "c*.py"))):
         name = os.path.basename(f)[:-3]
@@ -432,14 +438,23 @@ def kernel_stage(ctx, cov):
     tested, per_dir, evals = {}, {}, 0
     from concurrent.futures import ThreadPoolExecutor
     PAR = 4
+    vecs = dict(getattr(ctx, "shipped_vectors", []) or [])
+    def sqr_limit(d):
+        """mpn_sqr_basecase is only ever called below SQR_KARATSUBA_THRESHOLD (mul_n.c:349; the C routine ASSERTs n <= threshold): the limit of the directory's own table"""
+        while True:
+            v = dict(vecs.get(os.path.normpath(os.path.join(asmkern.X86, d, "gmp-mparam.h")), []))
+            if "SQR_KARATSUBA_THRESHOLD" in v: return v["SQR_KARATSUBA_THRESHOLD"]
+            if d in (".", ""): return 16
+            d = os.path.dirname(d) or "."
     def work(h):
-        lines = [ln for op in sorted(h.opmap) for ln in by_op.get(op, [])]
+        lim = sqr_limit(h.dir)
+        lines = [ln for op in sorted(h.opmap) for ln in by_op.get(op, []) if op != "k_sqr_basecase" or ln.count(",") + 1 <= lim]
         td = time.time()
         n, bad = run_dir(ctx, h, lines) if lines else (0, [])
         bad = [b + ("0",) for b in bad]
         # operand alignment: the kernels that touch SSE/AVX registers again with every allocation at 8 mod 16 / mixed
         simd_ops = sorted(op for op, kk in h.opmap.items() if any(k.simd for k in kk))
-        al = [ln for op in simd_ops for ln in by_op.get(op, [])]
+        al = [ln for ln in lines if ln.split(" ", 1)[0] in set(simd_ops)]
         for mode in (("alt",) if ctx.tier == "quick" else ("8", "alt")):
             if al:
                 n2, bad2 = run_dir(ctx, h, al, mode); n += n2; bad += [b + (mode,) for b in bad2]
@@ -652,10 +667,32 @@ def rebuild_stage(ctx, cov):
         for r in ex.map(lambda v: run_variant(ctx, v, jobs, cov), vs): out += r
     return out
 
+def table_search(ctx, cov):
+    """The executable side of `all_shipped_params_valid`: the driver evaluates every clause of Valid on every regenerated table.
+    A table that violates a clause makes the theorem fail; here the library is rebuilt with that table and WANT_ASSERT and the
+    crossover inputs are run on it, so that the broken proof comes with a concrete failing input when one exists."""
+    files = [rel for rel, _ in getattr(ctx, "shipped_vectors", [])]
+    if not files: return []
+    rc, ans, err = vlib.run_stream(ctx.driver, ["c14_table_valid %s => x" % sbytes(f) for f in files])
+    if rc != 0 or len(ans) != len(files): raise RuntimeError("driver failed on c14_table_valid: %s" % err[-500:])
+    failing = {}
+    for f, a in zip(files, ans):
+        if a.startswith("s"):
+            names = bytes.fromhex(a[1:]).decode()
+            if names: failing[f] = names
+        else: failing[f] = "driver answered " + a
+    cov["tables"] = {"files": len(files), "invalid": failing}
+    out = []
+    for i, (f, names) in enumerate(sorted(failing.items())):
+        log("table %s violates Valid (%s): rebuilding the library with it and WANT_ASSERT to look for a failing input" % (f, names))
+        out += run_variant(ctx, ("inv%02d" % i, "table %s + WANT_ASSERT [violates Valid: %s]" % (f, names), f, BASE_CFLAGS + " -DWANT_ASSERT=1", None), vlib.NPROC, cov)
+    return out
+
 def extra(ctx, cov):
     out = []
     if getattr(ctx, "driver", None) is None: return out
     stages = os.environ.get("C14_STAGES", "deferred,kernel,rebuild").split(",")       # debugging aid; default = everything
+    if "tables" in stages or "rebuild" in stages: out += table_search(ctx, cov)
     if "deferred" in stages: out += deferred_stage(ctx, cov)
     if "kernel" in stages: out += kernel_stage(ctx, cov)
     if "rebuild" in stages: out += rebuild_stage(ctx, cov)
